@@ -31,4 +31,10 @@ int c05_recip(unsigned divisor, short *dtbl256, int pos);
 void c05_quant(int simd, short *coef, short *divisors, short *workspace);
 void c05_convsamp(int simd, u8 **rows, unsigned start_col, short *workspace);
 int c05_can(const char *what);
+int c05_huff(int simd, short *block, int last_dc, const unsigned *dc_co, const unsigned char *dc_si,
+             const unsigned *ac_co, const unsigned char *ac_si, unsigned long long *buf, int *free_bits, u8 *out);
+int c05_can_huff(void);
+void c05_phuff_first(int simd, const short *block, const int *lut, int Sl, int Al, unsigned short *values, size_t *bits);
+int c05_phuff_refine(int simd, const short *block, const int *lut, int Sl, int Al, unsigned short *absvalues, size_t *bits);
+int c05_can_phuff(void);
 #endif
